@@ -7,24 +7,28 @@ translator regenerates from pewlib's source on every run); these theorems say wh
 of that computation means for every execution of the translated program. -/
 namespace Pew.Effects
 
-/-- start state of a function body: nothing written or returned yet, no local bound, the `np`
-parameters allocated -/
-def Start (np : Nat) (σ : St) : Prop :=
-  σ.written = [] ∧ σ.returned = [] ∧ np ≤ σ.next ∧ ∀ x o, σ.env x = some o → np ≤ o
+/-- start state of a function body: nothing written or returned yet, no local bound, nothing allocated, and an
+empty heap — i.e. the `np` parameters are `np` DISTINCT regions `(0,0) … (np-1,0)` none of which holds a reference
+into another (a caller passing the same array twice, overlapping views, or a container and one of its own elements
+is outside this start state; the dynamic half of the check makes such calls). -/
+def Start (σ : St) : Prop :=
+  σ.written = [] ∧ σ.returned = [] ∧ σ.heap = [] ∧ σ.objs = [] ∧ ∀ x, σ.env x = none
 
-theorem start_rel (np : Nat) (σ : St) (h : Start np σ) : Rel np σ A.empty :=
-  ⟨fun x o h1 h2 => absurd h2 (Nat.not_lt.mpr (h.2.2.2 x o h1)),
-   ⟨fun o hm _ => by simp [h.1] at hm, fun o hm _ => by simp [h.2.1] at hm⟩, h.2.2.1⟩
+theorem start_rel (np : Nat) (σ : St) (h : Start σ) : Rel np σ A.empty :=
+  ⟨fun x o h1 => by simp [h.2.2.2.2 x] at h1, fun o ho => by simp [h.2.2.2.1] at ho,
+   ⟨fun o hm _ => by simp [h.1] at hm, fun o hm => by simp [h.2.1] at hm, fun e he => by simp [h.2.2.1] at he⟩⟩
 
 /-- A parameter the analysis does not report as possibly written is not written by ANY execution
 of the program — of any length, through any branches and any number of loop iterations, whether it
-completes (`d = true`) or raises at an arbitrary point (`d = false`). -/
+completes (`d = true`) or raises at an arbitrary point (`d = false`): no written object is (in the region of)
+parameter `p`. -/
 theorem mayWrite_sound (np : Nat) (s : Stmt) (σ σ' : St) (d : Bool)
-    (h : Exec np s σ d σ') (h0 : Start np σ)
+    (h : Exec np s σ d σ') (h0 : Start σ)
     (p : Nat) (hp : p < np) (hnot : p ∉ (ana np s A.empty).report np) :
-    p ∉ σ'.written := by
-  intro hmem
-  have := (sound np s _ σ d σ' h (start_rel np σ h0)).2.1 p hmem hp
+    ∀ o ∈ σ'.written, o.1 ≠ p := by
+  intro o hmem heq
+  subst heq
+  have := (sound np s _ σ d σ' h (start_rel np σ h0)).2.1 o hmem hp
   apply hnot
   unfold A.report
   rcases this with ht | hw
@@ -33,39 +37,101 @@ theorem mayWrite_sound (np : Nat) (s : Stmt) (σ σ' : St) (d : Bool)
     · simp [ht, allParams, hp]
     · simp [ht, hw]
 
-/-- A parameter the analysis does not report as possibly aliased by the result is not among the
-objects returned by any execution (every `return` site, early or late). -/
+/-- A parameter the analysis does not report as possibly aliased by the result: no object returned by any execution
+(every `return` site, early or late; completed or raised) is (in the region of) the parameter, and when the execution
+ends the parameter does not hold a reference — direct or through other objects — to any returned object (so a function
+that stores part of its result INTO an argument is covered as well).  The translator returns, besides the result
+object itself, every object reachable from it (`bind t (reach [v]); ret t`), so a result that merely holds a reference
+to the parameter is covered too. -/
 theorem mayAlias_sound (np : Nat) (s : Stmt) (σ σ' : St) (d : Bool)
-    (h : Exec np s σ d σ') (h0 : Start np σ)
+    (h : Exec np s σ d σ') (h0 : Start σ)
     (p : Nat) (hp : p < np) (hnot : p ∉ (ana np s A.empty).reportRet np) :
-    p ∉ σ'.returned := by
-  intro hmem
-  have := (sound np s _ σ d σ' h (start_rel np σ h0)).2.2 p hmem hp
-  apply hnot
-  unfold A.reportRet
-  rcases this with ht | hw
-  · simp [ht, allParams, hp]
-  · by_cases ht : (ana np s A.empty).top = true
-    · simp [ht, allParams, hp]
-    · simp [ht, hw]
+    ∀ o ∈ σ'.returned, o.1 ≠ p ∧ ¬ Reach σ'.heap (p, 0) o := by
+  intro o hmem
+  have W := (sound np s _ σ d σ' h (start_rel np σ h0)).2
+  have hnt : ¬ (ana np s A.empty).top = true := by
+    intro ht
+    apply hnot
+    unfold A.reportRet
+    simp [ht, allParams, hp]
+  have hf : (ana np s A.empty).reachesRet p = false := by
+    cases hq : (ana np s A.empty).reachesRet p with
+    | false => rfl
+    | true =>
+      exfalso
+      apply hnot
+      unfold A.reportRet
+      simp [hnt, allParams, hp, hq]
+  unfold A.reachesRet at hf
+  simp at hf
+  obtain ⟨hc, hany⟩ := hf
+  have hr : o.1 ∈ (ana np s A.empty).r := by
+    rcases W.2.1 o hmem with ht | hm
+    · exact absurd ht hnt
+    · exact hm
+  have hpc : p ∈ closeN (ana np s A.empty).heap ((ana np s A.empty).heap.length + 1) [p] :=
+    closeN_mono _ _ _ _ (by simp)
+  constructor
+  · intro heq
+    apply hany o.1 hr
+    rw [heq]
+    exact hpc
+  · intro hreach
+    apply hany o.1 hr
+    exact reach_closed hnt W.2.2 hc hreach hpc
+
+abbrev σ₀ : St := ⟨fun _ => none, 0, [], [], [], []⟩
+
+example : Start σ₀ := ⟨rfl, rfl, rfl, rfl, fun _ => rfl⟩
 
 /-! non-vacuity: `x = param0; x = fresh; write x; y = param1; return y` — executions exist, the
 analysis reports no written parameter and parameter 1 as possibly returned -/
 def demo : Stmt :=
-  .seq (.bind 0 (.param 0)) (.seq (.bind 0 .fresh) (.seq (.write 0) (.seq (.bind 1 (.param 1)) (.ret 1))))
+  .seq (.bind 0 (.param 0)) (.seq (.bind 0 (.fresh 0)) (.seq (.write 0) (.seq (.bind 1 (.param 1)) (.ret 1))))
 
 example : (ana 2 demo A.empty).report 2 = [] ∧ (ana 2 demo A.empty).reportRet 2 = [1] := by decide
 
-example : ∃ σ', Exec 2 demo ⟨fun _ => none, 2, [], []⟩ true σ' ∧ σ'.written = [2] ∧ σ'.returned = [1] := by
-  refine ⟨⟨upd (upd (upd (fun _ => none) 0 0) 0 2) 1 1, 3, [2], [1]⟩, ?_, rfl, rfl⟩
+example : ∃ σ', Exec 2 demo σ₀ true σ' ∧ σ'.written = [(2, 0)] ∧ σ'.returned = [(1, 0)] := by
+  refine ⟨⟨upd (upd (upd (fun _ => none) 0 (0, 0)) 0 (2, 0)) 1 (1, 0), 1, [(2, 0)], [], [(2, 0)], [(1, 0)]⟩, ?_, rfl, rfl⟩
   refine .seq _ _ _ _ _ _ (.bindParam 0 0 _ (by decide)) ?_
-  refine .seq _ _ _ _ _ _ (.bindFresh 0 _) ?_
-  refine .seq _ _ _ _ _ _ (.write 0 2 _ (by simp [upd])) ?_
+  refine .seq _ _ _ _ _ _ (.bindFresh 0 0 _) ?_
+  refine .seq _ _ _ _ _ _ (.write 0 (2, 0) _ (by simp [upd])) ?_
   refine .seq _ _ _ _ _ _ (.bindParam 1 1 _ (by decide)) ?_
-  exact .ret 1 1 _ (by simp [upd])
+  exact .ret 1 (1, 0) _ (by simp [upd])
 
 /-- the analysis is not trivially silent: writing through an alias of a parameter is reported -/
 example : (ana 1 (.seq (.bind 0 (.param 0)) (.seq (.bind 1 (.alias [0])) (.write 1))) A.empty).report 1 = [0] := by
   decide
+
+/-! sharing through the heap: `x = param0; out = []; tmp = out; tmp.append(x); v = out[0]; v[...] = 0; return out`
+— the container has two names, the store goes through one, the load and the return through the other -/
+def demoShare : Stmt :=
+  .seq (.bind 0 (.param 0)) (.seq (.bind 1 (.fresh 0)) (.seq (.bind 2 (.alias [1])) (.seq (.store 2 0 0)
+    (.seq (.bind 3 (.load [1] 0 1)) (.seq (.write 3) (.seq (.bind 4 (.reach [1])) (.ret 4)))))))
+
+example : (ana 1 demoShare A.empty).report 1 = [0] ∧ (ana 1 demoShare A.empty).reportRet 1 = [0] := by decide
+
+example : ∃ σ', Exec 1 demoShare σ₀ true σ' ∧ σ'.written = [(0, 0)] ∧ σ'.returned = [(0, 0)] := by
+  refine ⟨⟨upd (upd (upd (upd (upd (fun _ => none) 0 (0, 0)) 1 (1, 0)) 2 (1, 0)) 3 (0, 0)) 4 (0, 0), 1, [(1, 0)],
+    [((1, 0), 0, (0, 0))], [(0, 0)], [(0, 0)]⟩, ?_, rfl, rfl⟩
+  refine .seq _ _ _ _ _ _ (.bindParam 0 0 _ (by decide)) ?_
+  refine .seq _ _ _ _ _ _ (.bindFresh 1 0 _) ?_
+  refine .seq _ _ _ _ _ _ (.bindAlias 2 [1] 1 (1, 0) _ (by simp) (by simp [upd])) ?_
+  refine .seq _ _ _ _ _ _ (.store 2 0 0 (1, 0) (0, 0) _ (by simp [upd]) (by simp [upd])) ?_
+  refine .seq _ _ _ _ _ _ (.bindLoadEdge 3 [1] 0 1 1 (1, 0) 0 (0, 0) _ (by simp) (by simp [upd]) (by simp) (by decide)) ?_
+  refine .seq _ _ _ _ _ _ (.write 3 (0, 0) _ (by simp [upd])) ?_
+  refine .seq _ _ _ _ _ _ (.bindReach 4 [1] 1 (1, 0) (0, 0) _ (by simp) (by simp [upd])
+    (.step _ 0 _ _ (by simp) (.refl _))) ?_
+  exact .ret 4 (0, 0) _ (by simp [upd])
+
+/-- `r = []; d.append(r); return r` (d a parameter): the result does not hold the parameter, the parameter holds the
+result — reported as possibly aliased (and as written) -/
+example : (ana 1 (.seq (.bind 0 (.param 0)) (.seq (.bind 1 (.fresh 0)) (.seq (.write 0) (.seq (.store 0 0 1) (.ret 1)))))
+    A.empty).reportRet 1 = [0] := by decide
+
+/-- storing a parameter in a local container and writing only the container's own slots is NOT a write to the
+parameter, and a result that does not hold it does not alias it -/
+example : (ana 1 (.seq (.bind 0 (.param 0)) (.seq (.bind 1 (.fresh 0)) (.seq (.store 1 0 0) (.seq (.write 1)
+    (.seq (.bind 2 (.fresh 1)) (.seq (.bind 3 (.reach [2])) (.ret 3))))))) A.empty).report 1 = [] := by decide
 
 end Pew.Effects
